@@ -6,7 +6,7 @@ Open Scope string_scope.
 Open Scope nat_scope.
 Open Scope list_scope.
 
-Local Arguments go : simpl never.
+Local Arguments go_p : simpl never.
 
 (** * Contexts ([prev_op] values) and followers *)
 Inductive ctx := CNone | CPar | CUn | COp (o : bop).
@@ -116,13 +116,13 @@ Lemma opstr_pow o : (String.eqb (opstr o) "**" || String.eqb (opstr o) "^") = is
 Proof. by destruct o. Qed.
 
 (** * Returning from a call made for an operand *)
-Lemma sub_return (toks pre0 : list tok) t0 post F c' d' r f :
+Lemma sub_return pa pe (toks pre0 : list tok) t0 post F c' d' r f :
   toks = (pre0 ++ [t0]) ++ post → t0 ≠ TEnd →
   follows post F → is_sub c' = true → flvl F ≤ crl c' → 2 ≤ f →
-  ∃ j, go op_priority toks f (length (pre0 ++ [t0])) d' (cstr c') (Some r) = Ok (r, j) ∧
+  ∃ j, go_p pa pe op_priority toks f (length (pre0 ++ [t0])) d' (cstr c') (Some r) = Ok (r, j) ∧
        ∀ f2 d c R, 2 ≤ f2 →
-         tail_of op_priority toks f2 d (cstr c) R j
-         = go op_priority toks f2 (length (pre0 ++ [t0])) d (cstr c) R.
+         tail_of pa pe op_priority toks f2 d (cstr c) R j
+         = go_p pa pe op_priority toks f2 (length (pre0 ++ [t0])) d (cstr c) R.
 Proof.
   intros Htoks Ht0 HF Hsub Hlvl Hf.
   set (pos := length (pre0 ++ [t0])).
@@ -136,8 +136,8 @@ Proof.
   { rewrite (ntoks_app _ _ _ Htoks), Hpost. simpl. unfold pos. lia. }
   (* returning [pos - 1]: the caller's tail looks at t0 and moves on to pos *)
   assert (Hback : ∀ f2 d c R,
-             tail_of op_priority toks f2 d (cstr c) R (pred pos)
-             = go op_priority toks f2 pos d (cstr c) R).
+             tail_of pa pe op_priority toks f2 d (cstr c) R (pred pos)
+             = go_p pa pe op_priority toks f2 pos d (cstr c) R).
   { intros. unfold tail_of. replace (pred pos) with (length pre0) by lia. rewrite Hprev.
     replace (length pre0 + 1) with pos by lia.
     assert (Hle : Nat.leb (ntoks toks) pos = false) by (apply Nat.leb_gt; lia).
@@ -151,21 +151,21 @@ Proof.
     destruct HF as [-> | ->].
     + injection Hpost as <- <-.
       exists pos. split.
-      * rewrite (go_skip _ _ _ _ _ _ _ TEnd Hcur) by auto.
+      * rewrite  (go_skip _ _ _ _ _ _ _ _ _ TEnd Hcur) by auto.
         unfold tail_of. rewrite Hcur, Hnn2. done.
       * intros f2 d c R Hf2. destruct f2 as [|f2]; [lia|].
-        rewrite (go_skip _ _ _ _ _ _ _ TEnd Hcur) by auto. unfold tail_of. rewrite Hcur. done.
+        rewrite  (go_skip _ _ _ _ _ _ _ _ _ TEnd Hcur) by auto. unfold tail_of. rewrite Hcur. done.
     + injection Hpost as <- <-.
       assert (Hend : tok_at toks (pos + 1) = Some TEnd).
       { replace (pos + 1) with (length ((pre0 ++ [t0]) ++ [TOther])) by (rewrite app_length; simpl; lia).
         apply (tok_at_mid _ _ _ []). rewrite Htoks, <- !app_assoc. done. }
       assert (Hle : Nat.leb (ntoks toks) (pos + 1) = false) by (apply Nat.leb_gt; simpl in Hn; lia).
-      assert (Hgo : ∀ f3 d c R, go op_priority toks (S (S f3)) pos d (cstr c) R
+      assert (Hgo : ∀ f3 d c R, go_p pa pe op_priority toks (S (S f3)) pos d (cstr c) R
                      = if String.eqb (cstr c) "(" then Err EUnclosed
                        else match R with None => Err EAssert | Some r => Ok (r, pos + 1) end).
-      { intros. rewrite (go_skip _ _ _ _ _ _ _ TOther Hcur) by auto.
+      { intros. rewrite  (go_skip _ _ _ _ _ _ _ _ _ TOther Hcur) by auto.
         unfold tail_of at 1. rewrite Hcur, Hle.
-        rewrite (go_skip _ _ _ _ _ _ _ TEnd Hend) by auto.
+        rewrite  (go_skip _ _ _ _ _ _ _ _ _ TEnd Hend) by auto.
         unfold tail_of. rewrite Hend. done. }
       exists (pos + 1). split.
       * destruct f as [|f]; [lia|]. rewrite Hgo, Hnn2. done.
@@ -174,35 +174,38 @@ Proof.
   - (* closing parenthesis of an enclosing group *)
     destruct HF as (rest' & ->). injection Hpost as <- <-.
     exists (pred pos). split; [|intros; apply Hback].
-    rewrite (go_close _ _ _ _ _ _ _ Hcur), Hnn1, Hnn2. done.
+    rewrite  (go_close _ _ _ _ _ _ _ _ _ Hcur), Hnn1, Hnn2. done.
   - (* an operator of an enclosing call *)
     exists (pred pos). split; [|intros; apply Hback].
-    assert (Hstop : (Z.leb (bprio o) (cprio c') && negb (is_pow o)) = true).
-    { destruct c' as [| | |o']; try discriminate; simpl in Hlvl; destruct o; simpl in Hlvl; try lia;
-        try reflexivity; destruct o'; simpl in Hlvl; try lia; reflexivity. }
+    assert (Hstop : op_ends pe (bprio o) (cprio c') (opstr o) = true ∧ Z.leb (bprio o) (cprio c') = true).
+    { destruct pe; (destruct c' as [| | |o']; try discriminate; simpl in Hlvl; destruct o; simpl in Hlvl; try lia;
+        try (split; reflexivity); destruct o'; simpl in Hlvl; try lia; split; reflexivity). }
+    destruct Hstop as [Hstop Hleb].
     destruct (decide (o = OJuxt)) as [-> | Hj].
     + destruct HF as (a & rest' & -> & Ha). injection Hpost as <- <-.
-      rewrite (go_atom_some _ _ _ _ _ _ _ _ Hcur Ha).
+      rewrite  (go_atom_some _ _ _ _ _ _ _ _ _ _ Hcur Ha).
       change "" with (opstr OJuxt). rewrite prio_d_cstr.
       unfold prio_d. rewrite prio_opstr. simpl.
-      simpl in Hstop. rewrite andb_true_r in Hstop. rewrite Hstop. done.
+      simpl in Hleb. rewrite Hleb. done.
     + assert (HF' : ∃ rest', post = TOp (opstr o) :: rest') by (destruct o; try done).
       destruct HF' as (rest' & ->). injection Hpost as <- <-.
-      rewrite (go_op _ _ _ _ _ _ _ _ Hcur (opstr_not_paren _ Hj)).
-      rewrite prio_opstr, prio_d_cstr, opstr_pow, Hstop. done.
+      rewrite  (go_op _ _ _ _ _ _ _ _ _ _ Hcur (opstr_not_paren _ Hj)).
+      rewrite prio_opstr, prio_d_cstr, Hstop. done.
 Qed.
 
 (** * The main lemma (Appendix A of DESIGN.md) *)
 Lemma flvl_cases F : flvl F = 0 ∨ flvl F = 1 ∨ flvl F = 4.
 Proof. destruct F as [| |o]; simpl; auto. destruct o; simpl; auto. Qed.
 
-Lemma continues_ok c o :
+Lemma continues_ok pe c o :
   clvl c ≤ olvl o →
-  (Z.leb (bprio o) (cprio c) && negb (is_pow o)) = false.
+  op_ends pe (bprio o) (cprio c) (opstr o) = false.
 Proof.
-  destruct c as [| | |o']; destruct o; simpl; intros H; try reflexivity; try lia;
+  destruct pe; destruct c as [| | |o']; destruct o; simpl; intros H; try reflexivity; try lia;
     destruct o'; simpl in *; try reflexivity; lia.
 Qed.
+Lemma continues_juxt c : clvl c ≤ 1 → Z.leb 1 (cprio c) = false.
+Proof. destruct c as [| | |o']; simpl; intros H; try reflexivity; try lia; destruct o'; simpl in *; try reflexivity; lia. Qed.
 
 Lemma wfp_bin o l r : wfp (Bin o l r) = true →
   wfp l = true ∧ wfp r = true ∧
@@ -221,12 +224,12 @@ Proof. by destruct o. Qed.
 Lemma clvl_le2 c : clvl c ≤ 2.
 Proof. destruct c as [| | |o]; simpl; try lia. destruct (olvl o); lia. Qed.
 
-Lemma go_render e : ∀ c (toks pre post : list tok) F d f g,
+Lemma go_render pa pe e : ∀ c (toks pre post : list tok) F d f g,
   wfp e = true → clvl c ≤ lvl e → follows post F → flvl F ≤ lvl e →
   toks = pre ++ render_cst e ++ post →
   need e ≤ f → g = steps e + f →
-  go op_priority toks g (length pre) d (cstr c) None
-  = go op_priority toks f (length pre + ntok e) d (cstr c) (Some (tree_of e)).
+  go_p pa pe op_priority toks g (length pre) d (cstr c) None
+  = go_p pa pe op_priority toks f (length pre + ntok e) d (cstr c) (Some (tree_of e)).
 Proof.
   induction e as [s|s|x IH|x IH|o l IHl r IHr|x IH];
     intros c toks pre post F d f g Hwf Hc HF Hfl Htoks Hneed ->;
@@ -234,14 +237,14 @@ Proof.
   - (* number *)
     destruct (follows_nonempty _ _ HF) as (t & rest & ->).
     assert (Hcur : tok_at toks (length pre) = Some (TNum s)) by (by apply (tok_at_mid _ _ _ (t :: rest))).
-    rewrite (go_atom_none _ _ _ _ _ _ _ Hcur eq_refl). unfold tail_of. rewrite Hcur.
+    rewrite  (go_atom_none _ _ _ _ _ _ _ _ _ Hcur eq_refl). unfold tail_of. rewrite Hcur.
     assert (Hle : Nat.leb (ntoks toks) (length pre + 1) = false).
     { apply Nat.leb_gt. rewrite (ntoks_app _ _ _ Htoks). simpl. lia. }
     by rewrite Hle.
   - (* name *)
     destruct (follows_nonempty _ _ HF) as (t & rest & ->).
     assert (Hcur : tok_at toks (length pre) = Some (TName s)) by (by apply (tok_at_mid _ _ _ (t :: rest))).
-    rewrite (go_atom_none _ _ _ _ _ _ _ Hcur eq_refl). unfold tail_of. rewrite Hcur.
+    rewrite  (go_atom_none _ _ _ _ _ _ _ _ _ Hcur eq_refl). unfold tail_of. rewrite Hcur.
     assert (Hle : Nat.leb (ntoks toks) (length pre + 1) = false).
     { apply Nat.leb_gt. rewrite (ntoks_app _ _ _ Htoks). simpl. lia. }
     by rewrite Hle.
@@ -250,7 +253,7 @@ Proof.
     assert (Hlx : 2 ≤ lvl x) by (destruct (lvl x) as [|[|]]; [discriminate..|lia]). clear Hlx'.
     assert (Hcur : tok_at toks (length pre) = Some (TOp "-")).
     { eapply tok_at_mid. rewrite Htoks. simpl. reflexivity. }
-    rewrite (go_op _ _ _ _ _ _ _ _ Hcur eq_refl).
+    rewrite  (go_op _ _ _ _ _ _ _ _ _ _ Hcur eq_refl).
     change (prio op_priority "-") with (Some 0%Z). cbv iota beta.
     assert (Htoks' : toks = (pre ++ [TOp "-"]) ++ render_cst x ++ post).
     { rewrite Htoks. simpl. by rewrite <- !app_assoc. }
@@ -265,7 +268,7 @@ Proof.
     assert (Hpos : length (pre ++ [TOp "-"]) + ntok x = length (((pre ++ [TOp "-"]) ++ ini) ++ [tl])).
     { rewrite <- render_length, Hrl. rewrite !app_length. simpl. lia. }
     rewrite Hpos.
-    destruct (sub_return toks ((pre ++ [TOp "-"]) ++ ini) tl post F CUn (d + 1) (tree_of x) (f - steps x)
+    destruct (sub_return pa pe toks ((pre ++ [TOp "-"]) ++ ini) tl post F CUn (d + 1) (tree_of x) (f - steps x)
                 Htoks'' Htl HF eq_refl) as (j & Hj & Hres); [simpl; lia | lia |].
     simpl cstr in Hj. rewrite Hj. rewrite Hres by lia.
     rewrite <- Hpos, Hlen. f_equal. lia.
@@ -274,7 +277,7 @@ Proof.
     assert (Hlx : 2 ≤ lvl x) by (destruct (lvl x) as [|[|]]; [discriminate..|lia]). clear Hlx'.
     assert (Hcur : tok_at toks (length pre) = Some (TOp "+")).
     { eapply tok_at_mid. rewrite Htoks. simpl. reflexivity. }
-    rewrite (go_op _ _ _ _ _ _ _ _ Hcur eq_refl).
+    rewrite  (go_op _ _ _ _ _ _ _ _ _ _ Hcur eq_refl).
     change (prio op_priority "+") with (Some 0%Z). cbv iota beta.
     assert (Htoks' : toks = (pre ++ [TOp "+"]) ++ render_cst x ++ post).
     { rewrite Htoks. simpl. by rewrite <- !app_assoc. }
@@ -289,7 +292,7 @@ Proof.
     assert (Hpos : length (pre ++ [TOp "+"]) + ntok x = length (((pre ++ [TOp "+"]) ++ ini) ++ [tl])).
     { rewrite <- render_length, Hrl. rewrite !app_length. simpl. lia. }
     rewrite Hpos.
-    destruct (sub_return toks ((pre ++ [TOp "+"]) ++ ini) tl post F CUn (d + 1) (tree_of x) (f - steps x)
+    destruct (sub_return pa pe toks ((pre ++ [TOp "+"]) ++ ini) tl post F CUn (d + 1) (tree_of x) (f - steps x)
                 Htoks'' Htl HF eq_refl) as (j & Hj & Hres); [simpl; lia | lia |].
     simpl cstr in Hj. rewrite Hj. rewrite Hres by lia.
     rewrite <- Hpos, Hlen. f_equal. lia.
@@ -322,9 +325,9 @@ Proof.
       assert (Hcur : tok_at toks posl = Some a).
       { apply (tok_at_pos _ (pre ++ render_cst l) _ (restr ++ post)); [|done].
         rewrite Htoksl. unfold postl. simpl. rewrite Hra. by rewrite <- !app_assoc. }
-      rewrite (go_atom_some _ _ _ _ _ _ _ _ Hcur Ha).
+      rewrite  (go_atom_some _ _ _ _ _ _ _ _ _ _ Hcur Ha).
       simpl opstr. change (prio_d op_priority "") with 1%Z. rewrite prio_d_cstr.
-      pose proof (continues_ok c OJuxt Hc) as Hco. simpl in Hco. rewrite andb_true_r in Hco. rewrite Hco.
+      rewrite (continues_juxt c Hc).
       set (prer := pre ++ render_cst l).
       assert (Htoksr : toks = prer ++ render_cst r ++ post).
       { rewrite Htoks. unfold prer. simpl. by rewrite <- !app_assoc. }
@@ -336,7 +339,7 @@ Proof.
       assert (Hpos : length prer + ntok r = length ((prer ++ ini) ++ [tl])).
       { rewrite <- render_length, Hrl. rewrite !app_length. simpl. lia. }
       rewrite Hpos.
-      destruct (sub_return toks (prer ++ ini) tl post F (COp OJuxt) (d + 1) (tree_of r) (f - steps r)
+      destruct (sub_return pa pe toks (prer ++ ini) tl post F (COp OJuxt) (d + 1) (tree_of r) (f - steps r)
                   Htoks'' Htl HF eq_refl) as (j & Hj' & Hres); [simpl; lia | lia |].
       simpl cstr in Hj'. rewrite Hj'. rewrite Hres by lia.
       rewrite <- Hpos. unfold prer. rewrite <- Hposl. f_equal. unfold posl. simpl. lia.
@@ -344,8 +347,8 @@ Proof.
       assert (Hcur : tok_at toks posl = Some (TOp (opstr o))).
       { apply (tok_at_pos _ (pre ++ render_cst l) _ (render_cst r ++ post)); [|done].
         rewrite Htoksl. unfold postl. rewrite (optok_explicit _ Hj). by rewrite <- !app_assoc. }
-      rewrite (go_op _ _ _ _ _ _ _ _ Hcur (opstr_not_paren _ Hj)).
-      rewrite prio_opstr, prio_d_cstr, opstr_pow, (continues_ok c o Hc).
+      rewrite  (go_op _ _ _ _ _ _ _ _ _ _ Hcur (opstr_not_paren _ Hj)).
+      rewrite prio_opstr, prio_d_cstr, (continues_ok pe c o Hc).
       set (prer := (pre ++ render_cst l) ++ [TOp (opstr o)]).
       assert (Htoksr : toks = prer ++ render_cst r ++ post).
       { rewrite Htoks. unfold prer. rewrite (optok_explicit _ Hj). by rewrite <- !app_assoc. }
@@ -359,7 +362,7 @@ Proof.
       assert (Hpos : length prer + ntok r = length ((prer ++ ini) ++ [tl])).
       { rewrite <- render_length, Hrl. rewrite !app_length. simpl. lia. }
       rewrite Hpos.
-      destruct (sub_return toks (prer ++ ini) tl post F (COp o) (d + 1) (tree_of r) (f - steps r)
+      destruct (sub_return pa pe toks (prer ++ ini) tl post F (COp o) (d + 1) (tree_of r) (f - steps r)
                   Htoks'' Htl HF eq_refl) as (j & Hj' & Hres); [simpl; lia | lia |].
       simpl cstr in Hj'. rewrite Hj'. rewrite Hres by lia.
       rewrite <- Hpos, Hlenr. f_equal. unfold posl. rewrite (optok_explicit _ Hj). simpl. lia.
@@ -367,7 +370,7 @@ Proof.
     destruct (follows_nonempty _ _ HF) as (t & rest & ->).
     assert (Hcur : tok_at toks (length pre) = Some (TOp "(")).
     { eapply tok_at_mid. rewrite Htoks. simpl. reflexivity. }
-    rewrite (go_open _ _ _ _ _ _ _ Hcur).
+    rewrite (go_open_none _ _ _ _ _ _ _ _ Hcur).
     assert (Htoks' : toks = (pre ++ [TOp "("]) ++ render_cst x ++ (TOp ")" :: t :: rest)).
     { rewrite Htoks. simpl. rewrite <- !app_assoc. simpl. reflexivity. }
     assert (Hlen : length (pre ++ [TOp "("]) = length pre + 1) by (rewrite app_length; simpl; lia).
@@ -382,7 +385,7 @@ Proof.
       - unfold posx. rewrite (app_length _ (render_cst x)), render_length. done. }
     pose proof (need_ge2 x).
     destruct (f - steps x) as [|f'] eqn:Hf'; [lia|].
-    rewrite (go_close _ _ _ _ _ _ _ Hclose). simpl. rewrite Hclose. simpl.
+    rewrite  (go_close _ _ _ _ _ _ _ _ _ Hclose). simpl. rewrite Hclose. simpl.
     unfold tail_of. rewrite Hclose.
     assert (Hle : Nat.leb (ntoks toks) (posx + 1) = false).
     { apply Nat.leb_gt. rewrite (ntoks_app _ _ _ Htoks'). rewrite (app_length (render_cst x)), render_length. simpl. unfold posx. lia. }
@@ -402,16 +405,16 @@ Qed.
 
 (** * [parse_render] on concrete syntax trees: every derivation of Python's grammar is
     parsed back to its own structure (redundant parentheses erased) *)
-Theorem parse_render_cst e ending :
+Theorem parse_render_cst pa pe e ending :
   wfp e = true → ending = [TEnd] ∨ ending = [TOther; TEnd] →
-  build op_priority (render_cst e ++ ending) = Ok (tree_of e).
+  build_p pa pe op_priority (render_cst e ++ ending) = Ok (tree_of e).
 Proof.
-  intros Hwf Hend. unfold build.
+  intros Hwf Hend. unfold build_p.
   set (toks := render_cst e ++ ending).
   assert (Hlen : length toks = ntok e + length ending) by (unfold toks; by rewrite app_length, render_length).
   pose proof (fuel_bound e) as [Hfb _]. pose proof (need_ge2 e) as Hn2.
   assert (Hel : 1 ≤ length ending ≤ 2) by (destruct Hend as [-> | ->]; simpl; lia).
-  pose proof (go_render e CNone toks [] ending FEnd 0 (build_fuel toks - steps e) (build_fuel toks) Hwf) as E.
+  pose proof (go_render pa pe e CNone toks [] ending FEnd 0 (build_fuel toks - steps e) (build_fuel toks) Hwf) as E.
   simpl length in E. simpl cstr in E.
   rewrite E; [ | simpl; lia | exact Hend | simpl; lia | reflexivity | unfold build_fuel; lia | unfold build_fuel; lia].
   clear E.
@@ -421,9 +424,9 @@ Proof.
   assert (Hcur : ∀ t rest, ending = t :: rest → tok_at toks (0 + ntok e) = Some t).
   { intros t rest He. apply (tok_at_pos _ (render_cst e) _ rest); [by rewrite <- He|]. by rewrite render_length. }
   destruct Hend as [-> | ->].
-  - rewrite (go_skip _ _ _ _ _ _ _ TEnd (Hcur _ _ eq_refl)) by auto.
+  - rewrite  (go_skip _ _ _ _ _ _ _ _ _ TEnd (Hcur _ _ eq_refl)) by auto.
     unfold tail_of. rewrite (Hcur _ _ eq_refl). done.
-  - rewrite (go_skip _ _ _ _ _ _ _ TOther (Hcur _ _ eq_refl)) by auto.
+  - rewrite  (go_skip _ _ _ _ _ _ _ _ _ TOther (Hcur _ _ eq_refl)) by auto.
     unfold tail_of at 1. rewrite (Hcur _ _ eq_refl).
     assert (Hend : tok_at toks (0 + ntok e + 1) = Some TEnd).
     { apply (tok_at_pos _ (render_cst e ++ [TOther]) _ []).
@@ -431,7 +434,7 @@ Proof.
       - rewrite app_length, render_length. simpl. lia. }
     assert (Hle : Nat.leb (ntoks toks) (0 + ntok e + 1) = false).
     { apply Nat.leb_gt. unfold ntoks. rewrite Hlen. simpl. lia. }
-    rewrite Hle. rewrite (go_skip _ _ _ _ _ _ _ TEnd Hend) by auto.
+    rewrite Hle. rewrite  (go_skip _ _ _ _ _ _ _ _ _ TEnd Hend) by auto.
     unfold tail_of. rewrite Hend. done.
 Qed.
 
@@ -509,20 +512,20 @@ Proof.
 Qed.
 
 (** * [parse_render] *)
-Theorem parse_render s e :
+Theorem parse_render pa pe s e :
   legal e = true →
-  build op_priority (render s e ++ [TEnd]) = Ok (tree_of (strip e)).
+  build_p pa pe op_priority (render s e ++ [TEnd]) = Ok (tree_of (strip e)).
 Proof.
   intros Hl. unfold render.
-  rewrite (parse_render_cst _ [TEnd] (parenthesize_wfp s e Hl)) by auto.
+  rewrite (parse_render_cst pa pe _ [TEnd] (parenthesize_wfp s e Hl)) by auto.
   by rewrite tree_of_parenthesize, tree_of_strip.
 Qed.
-Theorem parse_render_newline s e :
+Theorem parse_render_newline pa pe s e :
   legal e = true →
-  build op_priority (render s e ++ [TOther; TEnd]) = Ok (tree_of (strip e)).
+  build_p pa pe op_priority (render s e ++ [TOther; TEnd]) = Ok (tree_of (strip e)).
 Proof.
   intros Hl. unfold render.
-  rewrite (parse_render_cst _ [TOther; TEnd] (parenthesize_wfp s e Hl)) by auto.
+  rewrite (parse_render_cst pa pe _ [TOther; TEnd] (parenthesize_wfp s e Hl)) by auto.
   by rewrite tree_of_parenthesize, tree_of_strip.
 Qed.
 
@@ -531,9 +534,9 @@ Definition primary (e : expr) : Prop := wfp e = true ∧ lvl e = 4.
 Definition is_powb (o : bop) := is_pow o.
 
 (** [a ** b ** c] is [a ** (b ** c)] (either spelling of the operator) *)
-Corollary pow_right_assoc o1 o2 a b c :
+Corollary pow_right_assoc pa pe o1 o2 a b c :
   is_pow o1 = true → is_pow o2 = true → primary a → primary b → wfp c = true → 2 ≤ lvl c →
-  build op_priority (render_cst a ++ [TOp (opstr o1)] ++ render_cst b ++ [TOp (opstr o2)]
+  build_p pa pe op_priority (render_cst a ++ [TOp (opstr o1)] ++ render_cst b ++ [TOp (opstr o2)]
                      ++ render_cst c ++ [TEnd])
   = Ok (Eval.Bin (opstr o1) (tree_of a) (Eval.Bin (opstr o2) (tree_of b) (tree_of c))).
 Proof.
@@ -542,7 +545,7 @@ Proof.
   { cbn [wfp lvl]. rewrite Ha, Hb, Hc, La, Lb.
     destruct o1; try discriminate; destruct o2; try discriminate; simpl;
       (destruct (lvl c) as [|[|]]; [lia|lia|reflexivity]). }
-  pose proof (parse_render_cst _ [TEnd] Hwf (or_introl eq_refl)) as E.
+  pose proof (parse_render_cst pa pe _ [TEnd] Hwf (or_introl eq_refl)) as E.
   cbn [render_cst tree_of] in E.
   replace (optok o1) with [TOp (opstr o1)] in E by (by destruct o1).
   replace (optok o2) with [TOp (opstr o2)] in E by (by destruct o2).
@@ -550,21 +553,21 @@ Proof.
 Qed.
 
 (** [-a ** b] is [-(a ** b)], and [a ** -b ** c] is [a ** (-(b ** c))] *)
-Corollary unary_vs_pow_left a b :
+Corollary unary_vs_pow_left pa pe a b :
   primary a → wfp b = true → 2 ≤ lvl b →
-  build op_priority ([TOp "-"] ++ render_cst a ++ [TOp "**"] ++ render_cst b ++ [TEnd])
+  build_p pa pe op_priority ([TOp "-"] ++ render_cst a ++ [TOp "**"] ++ render_cst b ++ [TEnd])
   = Ok (Un "-" (Eval.Bin "**" (tree_of a) (tree_of b))).
 Proof.
   intros [Ha La] Hb Lb.
   assert (Hwf : wfp (Neg (Bin OPow a b)) = true).
   { cbn [wfp lvl is_pow olvl]. rewrite Ha, Hb, La. simpl.
     destruct (lvl b) as [|[|]]; [lia|lia|reflexivity]. }
-  pose proof (parse_render_cst _ [TEnd] Hwf (or_introl eq_refl)) as E.
+  pose proof (parse_render_cst pa pe _ [TEnd] Hwf (or_introl eq_refl)) as E.
   cbn [render_cst tree_of optok opstr] in E. repeat (simpl app in E; rewrite <- ?app_assoc in E). simpl app. exact E.
 Qed.
-Corollary unary_vs_pow_right a b c :
+Corollary unary_vs_pow_right pa pe a b c :
   primary a → primary b → wfp c = true → 2 ≤ lvl c →
-  build op_priority (render_cst a ++ [TOp "**"] ++ [TOp "-"] ++ render_cst b ++ [TOp "**"]
+  build_p pa pe op_priority (render_cst a ++ [TOp "**"] ++ [TOp "-"] ++ render_cst b ++ [TOp "**"]
                      ++ render_cst c ++ [TEnd])
   = Ok (Eval.Bin "**" (tree_of a) (Un "-" (Eval.Bin "**" (tree_of b) (tree_of c)))).
 Proof.
@@ -572,15 +575,15 @@ Proof.
   assert (Hwf : wfp (Bin OPow a (Neg (Bin OPow b c))) = true).
   { cbn [wfp lvl is_pow olvl]. rewrite Ha, Hb, Hc, La, Lb. simpl.
     destruct (lvl c) as [|[|]]; [lia|lia|reflexivity]. }
-  pose proof (parse_render_cst _ [TEnd] Hwf (or_introl eq_refl)) as E.
+  pose proof (parse_render_cst pa pe _ [TEnd] Hwf (or_introl eq_refl)) as E.
   cbn [render_cst tree_of optok opstr] in E. repeat (simpl app in E; rewrite <- ?app_assoc in E). simpl app. exact E.
 Qed.
 
 (** operators of one level group to the left: [a o1 b o2 c] is [(a o1 b) o2 c] *)
-Corollary left_assoc o1 o2 a b c :
+Corollary left_assoc pa pe o1 o2 a b c :
   is_pow o1 = false → is_pow o2 = false → olvl o1 = olvl o2 → o1 ≠ OJuxt → o2 ≠ OJuxt →
   wfp a = true → olvl o1 ≤ lvl a → wfp b = true → olvl o1 < lvl b → wfp c = true → olvl o1 < lvl c →
-  build op_priority (render_cst a ++ [TOp (opstr o1)] ++ render_cst b ++ [TOp (opstr o2)]
+  build_p pa pe op_priority (render_cst a ++ [TOp (opstr o1)] ++ render_cst b ++ [TOp (opstr o2)]
                      ++ render_cst c ++ [TEnd])
   = Ok (Eval.Bin (opstr o2) (Eval.Bin (opstr o1) (tree_of a) (tree_of b)) (tree_of c)).
 Proof.
@@ -590,7 +593,7 @@ Proof.
     rewrite (bool_decide_eq_false_2 _ J1), (bool_decide_eq_false_2 _ J2). rewrite <- Hl.
     cbn [andb]. rewrite !andb_true_r.
     repeat (apply andb_true_iff; split); try apply Nat.leb_le; try apply Nat.ltb_lt; lia. }
-  pose proof (parse_render_cst _ [TEnd] Hwf (or_introl eq_refl)) as E.
+  pose proof (parse_render_cst pa pe _ [TEnd] Hwf (or_introl eq_refl)) as E.
   cbn [render_cst tree_of] in E.
   rewrite (optok_explicit _ J1), (optok_explicit _ J2) in E.
   rewrite <- !app_assoc in E. exact E.
@@ -623,13 +626,13 @@ Proof.
 Qed.
 Lemma strip_juxt_to_mul e : strip (juxt_to_mul e) = juxt_to_mul (strip e).
 Proof. induction e; simpl; congruence. Qed.
-Corollary juxt_is_mul s e :
+Corollary juxt_is_mul pa pe s e :
   legal e = true →
-  ∃ t, build op_priority (render s e ++ [TEnd]) = Ok t
-       ∧ build op_priority (render s (juxt_to_mul e) ++ [TEnd]) = Ok (relabel t).
+  ∃ t, build_p pa pe op_priority (render s e ++ [TEnd]) = Ok t
+       ∧ build_p pa pe op_priority (render s (juxt_to_mul e) ++ [TEnd]) = Ok (relabel t).
 Proof.
   intros Hl. exists (tree_of (strip e)). split; [by apply parse_render|].
-  rewrite (parse_render s _ (legal_juxt_to_mul e)).
+  rewrite (parse_render pa pe s _ (legal_juxt_to_mul e)).
   by rewrite strip_juxt_to_mul, tree_of_juxt_to_mul.
 Qed.
 Lemma evaluate_relabel {V} (leaf : tok → res V) binop unop t :
@@ -641,19 +644,99 @@ Proof.
 Qed.
 
 (** * F16: juxtaposition directly before a parenthesised group ignores priorities *)
-Lemma paren_juxt_refuted :
+Lemma paren_juxt_refuted pe :
   ∃ l r, wfp l = true ∧ wfp r = true ∧ olvl OJuxt ≤ lvl l ∧
-         build op_priority (render_cst (Bin OJuxt l (Par r)) ++ [TEnd])
+         build_p true pe op_priority (render_cst (Bin OJuxt l (Par r)) ++ [TEnd])
          ≠ Ok (tree_of (Bin OJuxt l (Par r))).
 Proof.
   exists (Bin ODiv (Num "6") (Num "2")), (Bin OAdd (Num "1") (Num "2")).
-  repeat split; try (vm_compute; reflexivity || lia). vm_compute. discriminate.
+  destruct pe; (repeat split; try reflexivity; try (simpl; lia); vm_compute; discriminate).
 Qed.
 (** the two witnesses of DESIGN §7: [6/2(1+2)] groups as [6/(2(1+2))], [2**(3)(4)] as [2**((3)(4))] *)
-Lemma paren_juxt_witnesses :
-  build op_priority [TNum "6"; TOp "/"; TNum "2"; TOp "("; TNum "1"; TOp "+"; TNum "2"; TOp ")"; TEnd]
+Lemma paren_juxt_witnesses pe :
+  build_p true pe op_priority [TNum "6"; TOp "/"; TNum "2"; TOp "("; TNum "1"; TOp "+"; TNum "2"; TOp ")"; TEnd]
   = Ok (Eval.Bin "/" (Leaf (TNum "6"))
           (Eval.Bin "" (Leaf (TNum "2")) (Eval.Bin "+" (Leaf (TNum "1")) (Leaf (TNum "2")))))
-  ∧ build op_priority [TNum "2"; TOp "**"; TOp "("; TNum "3"; TOp ")"; TOp "("; TNum "4"; TOp ")"; TEnd]
+  ∧ build_p true pe op_priority [TNum "2"; TOp "**"; TOp "("; TNum "3"; TOp ")"; TOp "("; TNum "4"; TOp ")"; TEnd]
   = Ok (Eval.Bin "**" (Leaf (TNum "2")) (Eval.Bin "" (Leaf (TNum "3")) (Leaf (TNum "4")))).
-Proof. split; vm_compute; reflexivity. Qed.
+Proof. destruct pe; split; vm_compute; reflexivity. Qed.
+(** with the repaired "(" branch both group as Python does *)
+Lemma paren_juxt_fixed_witnesses pe :
+  build_p false pe op_priority [TNum "6"; TOp "/"; TNum "2"; TOp "("; TNum "1"; TOp "+"; TNum "2"; TOp ")"; TEnd]
+  = Ok (Eval.Bin "" (Eval.Bin "/" (Leaf (TNum "6")) (Leaf (TNum "2")))
+          (Eval.Bin "+" (Leaf (TNum "1")) (Leaf (TNum "2"))))
+  ∧ build_p false pe op_priority [TNum "2"; TOp "**"; TOp "("; TNum "3"; TOp ")"; TOp "("; TNum "4"; TOp ")"; TEnd]
+  = Ok (Eval.Bin "" (Eval.Bin "**" (Leaf (TNum "2")) (Leaf (TNum "3"))) (Leaf (TNum "4"))).
+Proof. destruct pe; split; vm_compute; reflexivity. Qed.
+
+(** * F41: a power after an uncertain number.  As first found, "**" never ends a pending
+    operator, not even the higher-priority "+/-" *)
+Lemma unc_pow_refuted pa :
+  build_p pa true op_priority [TNum "1.2"; TOp "+/-"; TNum "0.4"; TOp "**"; TNum "2"; TEnd]
+  = Ok (Eval.Bin "+/-" (Leaf (TNum "1.2")) (Eval.Bin "**" (Leaf (TNum "0.4")) (Leaf (TNum "2")))).
+Proof. destruct pa; vm_compute; reflexivity. Qed.
+Lemma unc_pow_fixed_witness pa :
+  build_p pa false op_priority [TNum "1.2"; TOp "+/-"; TNum "0.4"; TOp "**"; TNum "2"; TEnd]
+  = Ok (Eval.Bin "**" (Eval.Bin "+/-" (Leaf (TNum "1.2")) (Leaf (TNum "0.4"))) (Leaf (TNum "2"))).
+Proof. destruct pa; vm_compute; reflexivity. Qed.
+
+(** with the repaired test the power applies to the whole uncertain number, for every exponent
+    expression [x] (and either spelling of the operator): [v +/- u ** x] is [(v +/- u) ** x] *)
+Theorem unc_pow_binds_whole pa o v u x :
+  is_pow o = true → wfp x = true → 2 ≤ lvl x →
+  build_p pa false op_priority ([TNum v; TOp "+/-"; TNum u; TOp (opstr o)] ++ render_cst x ++ [TEnd])
+  = Ok (Eval.Bin (opstr o) (Eval.Bin "+/-" (Leaf (TNum v)) (Leaf (TNum u))) (tree_of x)).
+Proof.
+  intros Ho Hx Lx. unfold build_p.
+  set (pre := [TNum v; TOp "+/-"; TNum u; TOp (opstr o)]).
+  set (toks := pre ++ render_cst x ++ [TEnd]).
+  assert (Hlen : length toks = 4 + ntok x + 1).
+  { unfold toks, pre. rewrite !app_length, render_length. simpl. lia. }
+  assert (Hn : ntoks toks = 4 + ntok x + 1) by exact Hlen.
+  pose proof (fuel_bound x) as [Hfb _]. pose proof (need_ge2 x) as Hn2. pose proof (steps_ge1 x) as Hs1.
+  assert (H0 : tok_at toks 0 = Some (TNum v)) by reflexivity.
+  assert (H1 : tok_at toks 1 = Some (TOp "+/-")) by reflexivity.
+  assert (H2 : tok_at toks 2 = Some (TNum u)) by reflexivity.
+  assert (H3 : tok_at toks 3 = Some (TOp (opstr o))) by reflexivity.
+  assert (Hend : tok_at toks (4 + ntok x) = Some TEnd).
+  { apply (tok_at_pos _ (pre ++ render_cst x) _ []).
+    - unfold toks. by rewrite <- app_assoc.
+    - rewrite app_length, render_length. reflexivity. }
+  assert (Hoj : o ≠ OJuxt) by (intros ->; discriminate).
+  assert (Hleb : ∀ k, k ≤ 4 + ntok x → Nat.leb (ntoks toks) k = false).
+  { intros k Hk. apply Nat.leb_gt. lia. }
+  unfold build_fuel. rewrite Hlen.
+  replace (4 * (4 + ntok x + 1) + 8) with (S (S (S (S (4 * ntok x + 24))))) by lia.
+  set (f := 4 * ntok x + 24).
+  (* v *)
+  rewrite (go_atom_none _ _ _ _ _ _ _ _ _ H0 eq_refl). unfold tail_of at 1. rewrite H0.
+  rewrite (Hleb (0 + 1)) by lia.
+  (* +/- : a call for its right operand *)
+  rewrite (go_op _ _ _ _ _ _ _ _ _ _ H1 eq_refl).
+  change (prio op_priority "+/-") with (Some 4%Z). cbv iota beta.
+  change (prio_d op_priority "<none>") with (-1)%Z.
+  change (op_ends false 4 (-1) "+/-") with false. cbv iota.
+  (* u, then the power ends the pending +/- *)
+  change (0 + 1 + 1) with 2.
+  rewrite (go_atom_none _ _ _ _ _ _ _ _ _ H2 eq_refl). unfold tail_of at 1. rewrite H2.
+  rewrite (Hleb (2 + 1)) by lia. change (2 + 1) with 3.
+  rewrite (go_op _ _ _ _ _ _ _ _ _ _ H3 (opstr_not_paren _ Hoj)).
+  rewrite prio_opstr. change (prio_d op_priority "+/-") with 4%Z.
+  assert (He1 : op_ends false (bprio o) 4 (opstr o) = true) by (destruct o; try discriminate; reflexivity).
+  rewrite He1. change (Init.Nat.pred 3) with 2.
+  unfold tail_of at 1. rewrite H2. rewrite (Hleb (2 + 1)) by lia. change (2 + 1) with 3.
+  (* the power, now in the top-level call *)
+  rewrite (go_op _ _ _ _ _ _ _ _ _ _ H3 (opstr_not_paren _ Hoj)).
+  rewrite prio_opstr. change (prio_d op_priority "<none>") with (-1)%Z.
+  assert (He2 : op_ends false (bprio o) (-1) (opstr o) = false) by (destruct o; try discriminate; reflexivity).
+  rewrite He2. change (3 + 1) with (length pre).
+  pose proof (go_render pa false x (COp o) toks pre [TEnd] FEnd (0 + 1) (S f - steps x) (S f) Hx) as E.
+  simpl cstr in E. rewrite E; [ | destruct o; try discriminate; simpl; lia | by left | simpl; lia | reflexivity
+                               | unfold f; lia | unfold f; lia ].
+  clear E. change (length pre) with 4.
+  destruct (S f - steps x) as [|f'] eqn:Hf'; [unfold f in Hf'; lia|].
+  rewrite (go_skip _ _ _ _ _ _ _ _ _ TEnd Hend) by auto.
+  unfold tail_of at 1. rewrite Hend.
+  assert (Hnp : String.eqb (opstr o) "(" = false) by (by destruct o).
+  rewrite Hnp. unfold tail_of. rewrite Hend. reflexivity.
+Qed.
